@@ -1,15 +1,24 @@
 #!/bin/bash
-# usage: try_mutant.sh <patch.diff> <PROP-ID>... ; applies the patch to /repo, runs the checks, reverts.
-patch="$1"; shift
-cd /repo || exit 2
-if [ -n "$(git status --porcelain --untracked-files=no)" ]; then echo "/repo is dirty"; exit 2; fi
+# usage: try_mutant.sh <patch.diff> <PROP-ID>...
+# Applies the patch to a scratch worktree of /repo HEAD (/tmp/mx2/repo) and runs the checks against a scratch copy of
+# runner/ that depends on that worktree. /repo itself is never touched.
+patch="$(readlink -f "$1")"; shift
+MX=/tmp/mx2
+mkdir -p $MX
+if [ ! -d $MX/repo ]; then git -C /repo worktree add --detach $MX/repo HEAD >/dev/null 2>&1 || exit 2; fi
+head=$(git -C /repo rev-parse HEAD)
+(cd $MX/repo && git checkout -q --detach $head && git reset -q --hard) || exit 2
+mkdir -p $MX/runner
+cp /verif/runner/Cargo.lock $MX/runner/; sed "s|path = \"/repo/yarel\"|path = \"$MX/repo/yarel\"|" /verif/runner/Cargo.toml > $MX/runner/Cargo.toml
+rm -rf $MX/runner/src $MX/runner/.cargo; cp -r /verif/runner/src /verif/runner/.cargo $MX/runner/
+cd $MX/repo
 if git apply --check "$patch" 2>/dev/null; then git apply "$patch"
 elif git apply --3way "$patch" 2>/dev/null && [ -z "$(git diff --name-only --diff-filter=U)" ]; then git reset -q
-else git reset -q --hard HEAD; echo "PATCH DOES NOT APPLY: $patch"; exit 3; fi
-trap 'cd /repo && git reset -q --hard HEAD && git status --short | head -3' EXIT
+else git reset -q --hard; echo "PATCH DOES NOT APPLY: $patch"; exit 3; fi
 cd /verif
 for id in "$@"; do
   echo "=== $id with $patch"
-  timeout ${TMO:-900} ./check "$id" --tier "${TIER:-quick}" 2>&1 | grep -v "^KNOWN-FINDING" | tail -${TAIL:-6} | cut -c1-${CUT:-260}
+  VERIF_RUNNER_DIR=$MX/runner VERIF_OUT_DIR=$MX/out timeout ${TMO:-1200} ./check "$id" --tier "${TIER:-quick}" 2>&1 | grep -v "^KNOWN-FINDING" | tail -${TAIL:-6} | cut -c1-${CUT:-260}
   echo "exit=${PIPESTATUS[0]}"
 done
+(cd $MX/repo && git reset -q --hard)
